@@ -209,7 +209,7 @@ func graphSweep(c *Ctx, maxN int, thorough bool, emit func(g *gspec)) {
 				}
 			}
 			// F. target shapes (nested pointers, list elements, whole documents)
-			for shape := 1; shape <= 3; shape++ {
+			for _, shape := range []int{1, 2, 3, 5, 6} {
 				for i := 0; i < n; i++ {
 					for _, pp := range [][]int{{0, 0, 0}, {0, 2, 1}, {1, 1, 3}, {3, 2, 0}} {
 						g := base.clone()
